@@ -319,10 +319,7 @@ Section Printer.
       else if String.eqb c "ASTGroupingSets" then
         let+ gs := map_res (fun g => match g with
                                      | VTuple [x] => src x
-                                     | VTuple l => match l with
-                                                   | [] => Err (Crash 1)          (* grouping[0] on an empty tuple *)
-                                                   | _ => let+ xs := srcs l in Ok (S "(" ++ join (S ", ") xs ++ S ")")
-                                                   end
+                                     | VTuple l => let+ xs := srcs l in Ok (S "(" ++ join (S ", ") xs ++ S ")")
                                      | _ => Err (Crash 5)
                                      end) (ftuple "grouping_list" v) in
         Ok (S "GROUPING SETS (" ++ join (S ", ") gs ++ S ")")
